@@ -226,7 +226,7 @@ def gen_case(cseed: int, tier: str) -> dict[str, Any]:
     w = core.substream(cseed, "workload")
     f = core.substream(cseed, "faults")
     n_ops = h.choice([1, 1, 2, 2, 3, 3, 4, 5, 6, 8, 12])
-    enabled = {k for k in ("valid", "map", "pool", "fail", "iocrash", "wcrash", "rewrite", "same_path") if h.random() < 0.6} | {"valid"}
+    enabled = {k for k in ("valid", "map", "pool", "fail", "iocrash", "wcrash", "rewrite", "same_path", "torn") if h.random() < 0.6} | {"valid"}
     same_path_ops: list[int] = []
     ops: list[dict[str, Any]] = []
     files: dict[str, bytes] = {k: v[0] for k, v in SHARED_V.items()}
@@ -281,6 +281,12 @@ def gen_case(cseed: int, tier: str) -> dict[str, Any]:
         pr = prog.all_roles()
         main_bytes = pf.pop("main.s")
         pr.pop("main.s")
+        if kind == "torn":
+            # the stored source was torn: cut at a seeded byte, or ends inside a multi-byte character
+            cut = f.randrange(1, max(2, len(main_bytes)))
+            main_bytes = main_bytes[:cut] + f.choice([b"", b"", b"\xc3", b"\xe3\x81", b"; caf\xc3"])
+            entry = spec["entry"] = f.choice(["with_emitter", "assemble", "patch", "cli"])
+            spec.update({k: v for k, v in spec_for(entry, src, f"h{i}_", prog.mapping, [list(d) for d in prog.defines], h).items() if k not in spec})
         roles[src] = "source"
         if kind == "same_path":
             ops.append({"op": "write_file", "path": "probe.s", "data": main_bytes, "kind": "same_path_write"})
